@@ -196,8 +196,8 @@ func c01Decos(base *XElem, thorough bool) []Deco {
 	els := base.elems()
 	attrNames := []string{"x", "y", "x-y", "n:x", "X", "a"}
 	attrVals := []string{"v", "1", " v ", "<&\"'>", "it's", "\"q\""}
-	textVals := []string{"t", " t ", "1", "1.5", "true", "a&b<c>", "\tt\n", "x y", "it's", "\"q\"", "\u00a0t\u2028", "\u3000"}
-	renames := []string{"B", "a-b", "a_b", "n:a", "A"}
+	textVals := []string{"t", " t ", "1", "1.5", "true", "a&b<c>", "\tt\n", "x y", "it's", "\"q\"", "\u00a0t\u2028", "\u3000", "010"}
+	renames := []string{"B", "a-b", "a_b", "n:a", "A", "\u00c9a", "\u212a"}
 	for i, e := range els {
 		nk := len(e.Items)
 		for ai, an := range attrNames {
